@@ -487,6 +487,26 @@ def r7_notifications_run_nothing(ctx):
     R.check(bool(ack), "C02.R7", "notification:empty-ack", "RpcService::notification answers with MethodResponse::notification()", "RpcService::notification no longer answers with the empty acknowledgement", "%s:%d" % (b.file, b.lo))
 
 
+
+def r8_entries_are_decoded_like_single_messages(ctx):
+    """`entries classified exactly as single messages are`: the decoders the server uses for batch entries accept the same
+    texts as the ones for single messages - none of them reads a member as a borrowed `&str` (serde can borrow only
+    escape-free strings: a batch entry whose method name is written with a JSON escape then fails the call decoder, falls
+    through to the notification decoder and is never answered, while the same bytes sent alone are a call) (= C15.R7
+    over types/core/server)"""
+    from . import c15
+    n = c15._borrowed_str_scan(ctx.F, ctx.R, r"^<?jsonrpsee_(types|core|server)::", "C02.R8")
+    ctx.R.ok("C02.R8", "no-borrowed-str", "%d deserialisation sites inspected" % n)
+    ctx.R.floor("C02.R8", n, 40, "deserialisation sites in types/core/server")
+
+
+def r9_only_the_response_limit_refuses_a_reply(ctx):
+    """`only the response-size limit may replace the array by a single error`: the limit the reply builder works with is the
+    configured max_response_body_size on every entry point (= C08.R1)"""
+    from . import c08
+    c08.r1_size_provenance(ctx)
+
+
 def _borrowed(modname, fname):
     def run(ctx):
         import importlib
@@ -502,7 +522,7 @@ def _borrowed(modname, fname):
 BORROWED = [_borrowed("c01", "r3_ws_reply_once"), _borrowed("c19", "r6_proxy_rewrites_only_what_it_proxies")]
 
 
-RULES = [r1_gate_before_work, r2_classifier_agreement, r3_append_discipline, r4_nothing_outside_array, r5_append_writes_every_entry, r6_batch_container_is_inert, r7_notifications_run_nothing, rcfg_config_verbatim] + BORROWED
+RULES = [r1_gate_before_work, r2_classifier_agreement, r3_append_discipline, r4_nothing_outside_array, r5_append_writes_every_entry, r6_batch_container_is_inert, r7_notifications_run_nothing, r8_entries_are_decoded_like_single_messages, r9_only_the_response_limit_refuses_a_reply, rcfg_config_verbatim] + BORROWED
 
 LEVEL_TEXT = (
     "Structural necessary conditions of batch handling decided from the type-checked program: the gates that must precede "
